@@ -5,7 +5,7 @@
    objects; [spec_run] runs the REFERENCE (a plain list of (key, value) pairs, Spec/C01_Spec.v).
    Both return, after every step, the operation's result (value or exception) and the full views
    items(multi=True) / todict(multi=True) of both objects.  [wf_history] only asks that mappings
-   and keyword arguments passed in have distinct keys (and that update(self) has no kwargs).    *)
+   and keyword arguments passed in have distinct keys.                                          *)
 From Boltons Require Import Lib.Prelude Spec.C01_Spec Model.C01_Model Check.C01_Check
   Proofs.C01_Base Proofs.C01_Refine Proofs.C01_Main.
 
